@@ -25,6 +25,10 @@ pub enum PsOp {
     Merge { sub: Vec<PsOp>, rename: bool },
     /// replace the set by its own JSON (0) or protobuf (1) round trip; the contents must be unchanged
     RoundTrip { via: u8 },
+    /// hand the policy object stored under `id` (a static policy or a link) back to `add`, after
+    /// detaching it: 0 not at all, 1 the object itself (remove_static / unlink), 2 for a link also
+    /// every other link of its template and the template. `add` takes static policies only.
+    AddObject { id: u8, detach: u8 },
 }
 
 #[derive(Clone, Debug, Serialize, Deserialize)]
@@ -320,6 +324,38 @@ fn apply(cx: &mut Ctx<'_>, ps: &mut PolicySet, m: &mut PModel, op: &PsOp, step: 
             m2.remove(&pid(*id));
             res = ps.remove_template(PolicyId::new(pid(*id))).map(|_| ()).map_err(|e| e.to_string());
         }
+        PsOp::AddObject { id, detach } => {
+            name = "add(policy object taken from the set)";
+            let Some(obj) = ps.policy(&PolicyId::new(pid(*id))).cloned() else { return Ok(false) };
+            let was = m.get(&pid(*id)).cloned();
+            match (&was, detach % 3) {
+                (Some(PItem::Static(_)), 1 | 2) => {
+                    apply(cx, ps, m, &PsOp::RemoveStatic { id: *id }, step, false)?;
+                }
+                (Some(PItem::Link(..)), 1) => {
+                    apply(cx, ps, m, &PsOp::Unlink { id: *id }, step, false)?;
+                }
+                (Some(PItem::Link(t, _, _)), 2) => {
+                    let siblings: Vec<u8> = (0..=255u8).filter(|k| matches!(m.get(&pid(*k)), Some(PItem::Link(t2, _, _)) if t2 == t)).collect();
+                    for k in siblings {
+                        apply(cx, ps, m, &PsOp::Unlink { id: k }, step, false)?;
+                    }
+                    if let Some(tk) = (0..=255u8).find(|k| &pid(*k) == t) {
+                        apply(cx, ps, m, &PsOp::RemoveTemplate { id: tk }, step, false)?;
+                    }
+                    if main {
+                        cx.obs.count("reach.add_link_object_without_its_template");
+                    }
+                }
+                _ => {}
+            }
+            m2 = m.clone();
+            expect_ok = obj.is_static() && !m.contains_key(&pid(*id));
+            if let (true, Some(it)) = (expect_ok, was) {
+                m2.insert(pid(*id), it);
+            }
+            res = ps.add(obj).map_err(|e| e.to_string());
+        }
         PsOp::Merge { .. } | PsOp::RoundTrip { .. } => return Ok(false),
     }
     match (res.is_ok(), expect_ok) {
@@ -488,7 +524,8 @@ fn run(case: &Case, obs: &mut Obs) -> Option<Violation> {
             n_failed += 1;
             cx.obs.count("designed_failures_observed");
             // a failed operation changes nothing (set level)
-            if m != before {
+            // (AddObject first detaches the object through ordinary operations, which do change the model)
+            if m != before && !matches!(op, PsOp::AddObject { .. }) {
                 return Some(Violation::new("harness_model", "model changed on failure", step, "unchanged", "changed"));
             }
         }
@@ -533,7 +570,7 @@ fn gen_ops(rng: &mut Rng, n: usize, allow_merge: bool, idpool: usize) -> Vec<PsO
                 id = rng.below(idpool) as u8;
             }
         }
-        let w: &[u32] = if allow_merge { &[6, 4, 9, 3, 3, 3, 3, 1] } else { &[6, 4, 6, 1, 1, 1, 0, 0] };
+        let w: &[u32] = if allow_merge { &[6, 4, 9, 3, 3, 3, 3, 1, 1] } else { &[6, 4, 6, 1, 1, 1, 0, 0, 0] };
         match rng.weighted(w) {
             0 => {
                 if !used(id, &statics, &links, &templates) {
@@ -585,7 +622,15 @@ fn gen_ops(rng: &mut Rng, n: usize, allow_merge: bool, idpool: usize) -> Vec<PsO
                 let sub = gen_ops(rng, k, false, idpool);
                 ops.push(PsOp::Merge { sub, rename: rng.pct(60) });
             }
-            _ => ops.push(PsOp::RoundTrip { via: rng.below(2) as u8 }),
+            7 => ops.push(PsOp::RoundTrip { via: rng.below(2) as u8 }),
+            _ => {
+                let id = if !links.is_empty() && rng.pct(60) { *rng.pick(&links) } else if !statics.is_empty() && rng.pct(70) { *rng.pick(&statics) } else { id };
+                let detach = rng.below(3) as u8;
+                if detach == 2 {
+                    links.retain(|x| *x != id);
+                }
+                ops.push(PsOp::AddObject { id, detach })
+            }
         }
     }
     ops
